@@ -2,11 +2,16 @@
 (* C15 universes: syntax trees (operator pairs / triples in both nestings,   *)
 (* unary x binary x postfix, one-hole contexts composed with fillers,        *)
 (* postfix chains, object bodies, comprehensions, parameter lists), each     *)
-(* printed with minimal and with redundant parentheses, the laws of          *)
-(* Syntax.tla checked on every tree, one CASE line per printed text.         *)
-(* Mode "mut": token sequences of the minimal texts with one token deleted,  *)
-(* duplicated or swapped with its neighbour; the reference parser decides    *)
-(* the sequences that stay inside the operator core.                         *)
+(* printed with minimal and with redundant parentheses; the laws of          *)
+(* Syntax.tla are checked on every tree; one CASE line per printed text and   *)
+(* one per core text with one pair of its parentheses removed (kind          *)
+(* "unparen": another tree, or no sentence - decided by RefParse).           *)
+(* Modes "mut" / "both": for a seeded sample of the trees (RandomSubset, TLC   *)
+(* -seed) additionally the token sequence of the minimal text with one token  *)
+(* deleted, duplicated or swapped with its neighbour; RefParse decides the    *)
+(* sequences that stay inside the operator core (accept + tree / reject +     *)
+(* failure position), the others are "undecided".                             *)
+(* cfgs: MC_Syntax_quick.cfg, MC_Syntax_thorough.cfg (invariant LawsAndEmit). *)
 EXTENDS Syntax, Json, Randomization
 
 CONSTANTS Mode,      \* "trees" | "mut" | "both" (trees + mutants of a seeded sample of the trees)
@@ -147,9 +152,9 @@ NFill == Len(FillerSeq)
 D1Descs == {<<"d1", i, f>> : i \in 1..NCtx, f \in 1..NFill}
 D2Idx == (1..NCtx) \X (1..NCtx) \X (1..NFill)
 D2Of(S) == {<<"d2", x[1], x[2], x[3]>> : x \in S}
-D2Descs == D2Of(RandomSubset(IF Tier = "quick" THEN 9000 ELSE 120000, D2Idx))
+D2Descs == D2Of(RandomSubset(IF Tier = "quick" THEN 8000 ELSE 90000, D2Idx))
 D3Descs == IF Tier = "quick" THEN {}
-           ELSE {<<"d3", i, x[1], x[2], x[3]>> : i \in 1..NCtx, x \in RandomSubset(900, D2Idx)}
+           ELSE {<<"d3", i, x[1], x[2], x[3]>> : i \in 1..NCtx, x \in RandomSubset(600, D2Idx)}
 
 (* --- part 5: postfix chains -------------------------------------------------- *)
 PostList(h) ==
@@ -179,7 +184,7 @@ C2Idx == (1..NTargets) \X (1..NPostForms) \X (1..NPostForms)
 C2Of(S) == {<<"c2", x[1], x[2], x[3]>> : x \in S}
 C2Descs == IF Tier = "quick" THEN C2Of(RandomSubset(3000, C2Idx)) ELSE C2Of(C2Idx)
 C3Descs == IF Tier = "quick" THEN {}
-           ELSE {<<"c3", x[1], x[2], x[3], p3>> : x \in RandomSubset(1200, C2Idx), p3 \in 1..NPostForms}
+           ELSE {<<"c3", x[1], x[2], x[3], p3>> : x \in RandomSubset(800, C2Idx), p3 \in 1..NPostForms}
 
 (* --- part 6: object bodies ----------------------------------------------------- *)
 MemberPool == <<MLoc(Bd("v", N1)), MLoc(BdF("g", Ps(<<Pm("p"), Pd("q", N2)>>, FALSE), <<"var", "p">>)),
@@ -274,8 +279,6 @@ Expected(toks) ==
 
 SwapAt(s, i) == [j \in 1..Len(s) |-> IF j = i THEN s[i + 1] ELSE IF j = i + 1 THEN s[i] ELSE s[j]]
 DupAt(s, i) == SubSeq(s, 1, i) \o SubSeq(s, i, Len(s))
-RECURSIVE SetToSeq(_)
-SetToSeq(S) == IF S = {} THEN <<>> ELSE LET x == CHOOSE x \in S : TRUE IN <<x>> \o SetToSeq(S \ {x})
 \* p = the minimal print of a tree: one token deleted / duplicated / swapped with its right neighbour
 Mutants(p) ==
   LET toks == p.t IN
@@ -283,13 +286,11 @@ Mutants(p) ==
   \o [i \in 1..Len(toks) |-> [kind |-> "dup", at |-> i, toks |-> DupAt(toks, i)]]
   \o [i \in 1..(Len(toks) - 1) |-> [kind |-> "swap", at |-> i, toks |-> SwapAt(toks, i)]]
 \* the minimal print of a core tree with one pair of its parentheses removed: another tree or no sentence
-Unparens(pp) ==
-  IF ~InCore(pp.t) THEN <<>>
-  ELSE LET pns == SetToSeq(ParenNodes(pp.n)) IN
-       [i \in 1..Len(pns) |->
-          LET tk == DropAt(DropAt(pp.t, pns[i][2]), pns[i][1]) IN
-          [kind |-> "unparen", at |-> pns[i][1], toks |-> tk, sep |-> SepCodes(tk), exp |-> Expected(tk)]]
-MutSample == IF Tier = "quick" THEN 60 ELSE 600
+Unparens(rd) ==
+  [i \in 1..Len(rd) |->
+     [kind |-> "unparen", at |-> rd[i].at, toks |-> rd[i].toks, sep |-> SepCodes(rd[i].toks),
+      exp |-> IF rd[i].ok THEN [d |-> "accept", tree |-> rd[i].n] ELSE [d |-> "reject", at |-> rd[i].p]]]
+MutSample == IF Tier = "quick" THEN 60 ELSE 400
 MutCases(e) ==
   LET ms == Mutants(PrintTree(e, "min")) IN
   [i \in 1..Len(ms) |-> [kind |-> ms[i].kind, at |-> ms[i].at, toks |-> ms[i].toks, sep |-> SepCodes(ms[i].toks),
@@ -310,17 +311,18 @@ Next == ph = 0 /\ ph' = 1 /\ UNCHANGED <<c, mu>>
 
 CaseOf(pp, style) == [st |-> style, toks |-> pp.t, sep |-> SepCodes(pp.t), core |-> InCore(pp.t),
                       exp |-> [d |-> "accept", tree |-> pp.n]]
-Laws(tree, pmin, pred) == TreeLaws(tree, pmin, pred)
-Emit(pmin, pred) ==
+Laws(tree, pmin, pred, rd) == TreeLawsR(tree, pmin, pred, rd)
+Emit(pmin, pred, rd) ==
   /\ PrintT(<<"CASE", ToJson(CaseOf(pmin, "min"))>>) /\ PrintT(<<"CASE", ToJson(CaseOf(pred, "red"))>>)
-  /\ LET ups == Unparens(pmin) IN \A i \in 1..Len(ups) : PrintT(<<"CASE", ToJson(ups[i])>>)
+  /\ LET ups == Unparens(rd) IN \A i \in 1..Len(ups) : PrintT(<<"CASE", ToJson(ups[i])>>)
 MutLaws(ms) == \A i \in 1..Len(ms) : LawRoundTrip(ms[i].toks)
 MutEmit(ms) == \A i \in 1..Len(ms) : PrintT(<<"CASE", ToJson(ms[i])>>)
 
 TreeCheck(tree, emit) ==
   LET pmin == PrintTree(tree, "min")
-      pred == PrintTree(tree, "red") IN
-  Laws(tree, pmin, pred) /\ (emit => Emit(pmin, pred))
+      pred == PrintTree(tree, "red")
+      rd == Readings(pmin) IN
+  Laws(tree, pmin, pred, rd) /\ (emit => Emit(pmin, pred, rd))
 MutCheck(tree, emit) ==
   LET ms == MutCases(tree) IN MutLaws(ms) /\ (emit => MutEmit(ms))
 
